@@ -38,7 +38,14 @@ def main():
     coarse = [c for c in resc.cases if isinstance(c, dict) and "p0" in c]
     for c in coarse:
         c["coarse"] = True
-    cases = coarse + cases
+    resh = tlc("SesameMC", "Sesame_halfopen", timeout=900, workers=8)
+    require_tlc_ok(resh, "Sesame_halfopen")
+    run.add_tlc(resh, "Sesame_halfopen: two-peak curves x half-open search ranges that cut the higher peak off")
+    halfopen = [c for c in resh.cases if isinstance(c, dict) and "p0" in c]
+    run.notes["half_open_cases_peak_not_global"] = sum(1 for c in halfopen if c["a"][c["p0"] - 1] != max(c["a"]))
+    if run.notes["half_open_cases_peak_not_global"] == 0:
+        raise Exception("non-vacuity failed: no half-open case selects a peak other than the global maximum")
+    cases = coarse + halfopen + cases
     rng = np.random.RandomState(run.seed)
     if not run.quick and len(cases) > 150000:
         cases = [cases[i] for i in sorted(rng.choice(len(cases), 150000, replace=False).tolist())]
